@@ -667,7 +667,7 @@ def _dec_task(t):
     for i in range(0, len(vs), 2000):
         hh = hashlib.sha256()
         for fam, v in vs[i:i + 2000]:
-            hh.update(repr(observe.cls_of(fam)(v).scores()).encode("ascii"))
+            hh.update(_dec_obs(fam, v).encode("ascii", "replace"))
         chunk_digests.append(hh.hexdigest())
     # rejected constructions as well: the context must survive every error path
     import cvss
@@ -682,12 +682,19 @@ def _dec_task(t):
     return chunk_digests, before == after, after
 
 
+def _dec_obs(fam, v):
+    try:
+        return repr(observe.cls_of(fam)(v).scores())
+    except Exception as e:  # noqa
+        return "raised %s" % type(e).__name__
+
+
 def dec_scores(t, chunk):
     prec, rounding = t
     if prec is not None:
         decimal.setcontext(decimal.Context(prec=prec, rounding=getattr(decimal, rounding)))
     vs = dec_vectors()[chunk * 2000:(chunk + 1) * 2000]
-    return [(fam, v, observe.cls_of(fam)(v).scores()) for fam, v in vs]
+    return [(fam, v, _dec_obs(fam, v)) for fam, v in vs]
 
 
 def _dec_first_diff(t):
